@@ -588,6 +588,108 @@ def data_tensor_ops():
     return ops
 
 
+def round3_ops():
+    """composite transforms w.r.t. the parameters of EVERY member (all-linear, all-non-rigid, mixed; forward / tensor / disp),
+    losses whose option arguments are tensors computed from the differentiated inputs (norm) or differentiable themselves (masks),
+    PointSetTransformer w.r.t. the input points and the parameters for several (grid, axes, to_grid, to_axes) combinations"""
+    ops = []
+
+    def members(kind, grid):
+        if kind == "linear":
+            return [S.AnisotropicScaling(grid), S.EulerRotation(grid), S.Translation(grid)]
+        if kind == "linear2":
+            return [S.AffineTransform(grid), S.Shearing(grid)]
+        if kind == "nonrigid":
+            return [S.FreeFormDeformation(grid, stride=2), S.StationaryVelocityFieldTransform(grid)]
+        return [S.AffineTransform(grid), S.FreeFormDeformation(grid, stride=2)]       # mixed
+
+    def composite(cls_name, kind, via):
+        def build(D, gen):
+            grid = mk_grid(D, gen)
+            ms = members(kind, grid)
+            t = getattr(S, cls_name)(*ms).to(DT)
+            params = list(t.parameters())
+            with torch.no_grad():
+                for q in params:
+                    q.add_(rnd(gen, *q.shape) * 0.05)
+            pts = rnd(gen, 1, 6, D, lo=-0.6, hi=0.6).requires_grad_(True)
+            w = {}
+
+            def value():
+                if via == "forward":
+                    return t(pts)
+                t.update()
+                if via == "tensor":
+                    return t.tensor()
+                if via == "disp":
+                    return t.disp()
+                return t.inverse()(pts)
+            with torch.no_grad():
+                w["w"] = rnd(gen, *value().shape)
+            return (lambda: (value() * w["w"]).sum()), params + ([pts] if via in ("forward", "inverse") else [])
+        return build
+    for cls_name in ("MultiLevelTransform", "SequentialTransform"):
+        for kind in ("linear", "linear2", "nonrigid", "mixed"):
+            for via in ("forward", "tensor", "disp"):
+                ops.append(Op(f"{cls_name}[{kind}].{via}", composite(cls_name, kind, via), max_coords=8))
+    for kind in ("linear", "linear2"):
+        ops.append(Op(f"SequentialTransform[{kind}].inverse", composite("SequentialTransform", kind, "inverse"), max_coords=8))
+
+    # ---- losses: tensor-valued norm computed from the inputs, differentiable masks
+    def normed(fn, **kw):
+        def build(D, gen):
+            shape = (6, 7) if D == 2 else (5, 6, 5)
+            x = rnd(gen, 1, 2, *shape).requires_grad_(True)
+            y = rnd(gen, 1, 2, *shape).requires_grad_(True)
+            f = lambda: fn(x, y, norm=x.square().mean() + y.square().mean() + 1, **kw)
+            return f, [x, y]
+        return build
+    for nm, fn in (("ssd_loss", LF.ssd_loss), ("mse_loss", LF.mse_loss), ("l1_loss", LF.l1_loss), ("mae_loss", LF.mae_loss),
+                   ("huber_loss", LF.huber_loss), ("smooth_l1_loss", LF.smooth_l1_loss)):
+        ops.append(Op(f"{nm}(norm=tensor of inputs)", normed(fn)))
+
+    def soft_masked(fn, key, **kw):
+        def build(D, gen):
+            shape = (6, 7) if D == 2 else (5, 6, 5)
+            x = rnd(gen, 1, 2, *shape).requires_grad_(True)
+            y = rnd(gen, 1, 2, *shape).requires_grad_(True)
+            z = rnd(gen, 1, 1, *shape).requires_grad_(True)
+            f = lambda: fn(x, y, **{key: torch.sigmoid(z)}, **kw)
+            return f, [x, y, z]
+        return build
+    for nm, fn, key, kw in (("mse_loss", LF.mse_loss, "mask", {}), ("ssd_loss", LF.ssd_loss, "mask", {}), ("lcc_loss", LF.lcc_loss, "mask", {"kernel_size": 3}),
+                            ("wlcc_loss", LF.wlcc_loss, "source_mask", {"kernel_size": 3}), ("wlcc_loss", LF.wlcc_loss, "mask", {"kernel_size": 3})):
+        ops.append(Op(f"{nm}({key}=differentiable)", soft_masked(fn, key, **kw)))
+
+    # ---- PointSetTransformer w.r.t. the input points and the parameters
+    def pointset(cls_name, combo):
+        def build(D, gen):
+            grid = mk_grid(D, gen)
+            t = getattr(S, cls_name)(grid).to(DT)
+            params = list(t.parameters())
+            with torch.no_grad():
+                for q in params:
+                    q.add_(rnd(gen, *q.shape) * 0.05)
+            other = Grid(size=(8, 7), spacing=(0.75, 1.0), direction=[[0.8, -0.6], [0.6, 0.8]], origin=(1.0, -2.0)) if D == 2 else \
+                Grid(size=(6, 5, 5), spacing=(0.8, 1.2, 0.6), direction=[[1 / 9, -8 / 9, 4 / 9], [4 / 9, 4 / 9, 7 / 9], [-8 / 9, 1 / 9, 4 / 9]], origin=(1.0, -2.0, 0.5))
+            kw = {"default": {}, "world": {"axes": Axes.WORLD}, "other-grid": {"grid": other, "axes": Axes.CUBE},
+                  "grid-to-world": {"axes": Axes.GRID, "to_axes": Axes.WORLD}, "to-other-grid": {"to_grid": other, "to_axes": Axes.CUBE_CORNERS}}[combo]
+            tr = S.PointSetTransformer(t, **kw)
+            if combo == "world":
+                pts = (rnd(gen, 1, 6, D, lo=-0.5, hi=0.5) * 3 + grid.center().to(DT)).requires_grad_(True)
+            elif combo == "grid-to-world":
+                pts = (rnd(gen, 1, 6, D, lo=0.2, hi=0.8) * (grid.size_tensor().to(DT) - 1)).requires_grad_(True)
+            else:
+                pts = rnd(gen, 1, 6, D, lo=-0.6, hi=0.6).requires_grad_(True)
+            w = rnd(gen, 1, 6, D)
+            return (lambda: (tr(pts) * w).sum()), params + [pts]
+        return build
+    for cls_name in ("AffineTransform", "FreeFormDeformation"):
+        for combo in ("default", "world", "other-grid", "grid-to-world", "to-other-grid"):
+            ops.append(Op(f"PointSetTransformer({cls_name},{combo})", pointset(cls_name, combo), max_coords=10))
+    return ops
+
+
 def option_variant_ops():
     """the same operations under their other option values: padding modes and numeric padding values of the samplers, masks and
     reductions of the losses, Euler orders outside the closed forms, sampling modes of warping / expv"""
@@ -776,6 +878,7 @@ def registry():
     ops += option_variant_ops()
     ops += disp_other_grid_ops()
     ops += data_tensor_ops()
+    ops += round3_ops()
     return ops
 
 
